@@ -34,13 +34,22 @@ func (interp *Interpreter) importSrc(rPath, importPath string, skipTest bool) (s
 			rPath = "."
 		}
 		dir = filepath.Join(filepath.Dir(interp.name), rPath, importPath)
-	} else if dir, rPath, err = interp.pkgDir(interp.context.GOPATH, rPath, importPath); err != nil {
-		// Try again, assuming a root dir at the source location.
-		if rPath, err = interp.rootFromSourceLocation(); err != nil {
-			return "", err
+	} else {
+		if rPath == mainID {
+			// The imports of the main file are first searched from its own
+			// location, when it is in GOPATH.
+			if root, rerr := interp.rootFromSourceLocation(); rerr == nil {
+				rPath = root
+			}
 		}
 		if dir, rPath, err = interp.pkgDir(interp.context.GOPATH, rPath, importPath); err != nil {
-			return "", err
+			// Try again, assuming a root dir at the source location.
+			if rPath, err = interp.rootFromSourceLocation(); err != nil {
+				return "", err
+			}
+			if dir, rPath, err = interp.pkgDir(interp.context.GOPATH, rPath, importPath); err != nil {
+				return "", err
+			}
 		}
 	}
 
